@@ -41,11 +41,15 @@ WORDS = [8, 16, 32, 64]
 
 def nontrivial(op, result):
     t = op.split()
+    if t[0] in ("mask", "test"):
+        return True
     return not (t[0] in ("pair", "pairs") and t[3] == "0" and (len(t) < 5 or t[4] == "0"))
 
 
 def weight(op):
     t = op.split()
+    if t[0] in ("mask", "test"):
+        return 1
     if t[0] == "pairs":
         return 1 << int(t[1])
     if t[0] == "bits":
@@ -193,6 +197,14 @@ def two_step_programs(n, w, small):
 
 def batches(rng, tier):
     thorough = tier == "thorough"
+    # fcppt::bit::shifted_mask / test for every shift count of every word type
+    ops = [f"mask {w} {k}" for w in WORDS for k in range(w)]
+    for w in WORDS:
+        allw = (1 << w) - 1
+        for k in range(w):
+            for x in (0, allw, 1 << k, allw ^ (1 << k), int("55" * 8, 16) & allw, int("AA" * 8, 16) & allw):
+                ops.append(f"test {w} {x} {k}")
+    yield Batch("bit-mask-test", ops, exhaustive=True, note="shifted_mask<W>(k), test(x, shifted_mask<W>(k)) for all k < digits(W)")
     # exhaustive pairs of subsets
     for n in SIZES:
         words = WORDS if (thorough or n <= 5) else [8, 32] if n == 8 else [8, 64]
